@@ -305,11 +305,21 @@ def _nan_ext(ismax):
 
 
 def _plain_ext(ismax):
-    def g(a, axis=None, keepdims=False, **k):
+    def g(a, axis=None, keepdims=False, where=None, initial=None, **k):
         if isinstance(a, (list, tuple)) and _has_sym(a):
             a = array(a)
-        if is_obj(a):
-            return _reduce(a, axis, _ext(ismax, False), keepdims)
+        if is_obj(a) or (where is not None and is_obj(where)):
+            if where is not None:
+                if initial is None:
+                    raise ValueError("reduction operation 'maximum' does not have an identity, so to use a where mask one has to specify 'initial'")
+                a = globals()["where"](where, a, initial)  # masked-out elements do not take part: they are replaced by the initial value
+            base = _ext(ismax, False)
+            f = base if initial is None else (lambda xs: base(list(xs) + [XF.of(initial)]))
+            return _reduce(a, axis, f, keepdims)
+        if where is not None:
+            k["where"] = where
+        if initial is not None:
+            k["initial"] = initial
         return (real_np.max if ismax else real_np.min)(a, axis=axis, keepdims=keepdims, **k)
     return g
 
